@@ -10,6 +10,7 @@
 (*   C  interplay: row-derived bounds feeding exact abs/min/max, nested    *)
 (*      negative scales, shared sub-expressions                            *)
 (*   D  objectives with nested abs/min/max under mixed-sign coefficients   *)
+(*   I  exact min / max over three operands, one dominated, in every order *)
 EXTENDS Integers, Sequences, FiniteSets, TLC, Json
 
 CONSTANT Family
@@ -191,8 +192,22 @@ ConsE == {NamedCon("a", Con(U("abs", y), "ge", Num(1, 2))),
           Con(N2("min", z, Num(1, 1)), "le", Num(1, 2)),
           Con(B("sub", Num(0, 1), N2("max", V("w"), y)), "le", Num(0, 1))}
 ---------------------------------------------------------------------------
-Doms == CASE Family = "A" -> DomsA [] Family = "B" -> DomsB [] Family = "C" -> DomsC [] Family = "D" -> DomsD [] Family = "E" -> DomsE [] Family = "F" -> DomsF [] Family \in {"G", "H"} -> DomsG
-Cons == CASE Family = "A" -> ConsA [] Family = "B" -> ConsB [] Family = "C" -> ConsC [] Family = "D" -> ConsD [] Family = "E" -> ConsE [] Family = "F" -> ConsF [] Family \in {"G", "H"} -> ConsG
+(* family I: exact min / max over three operands whose ranges differ, one of them dominated by     *)
+(* another (it can never be the extreme and is pruned), in every order - the big-M constant of     *)
+(* each retained operand must come from that operand's own range                                  *)
+zz == V("z")
+DomsI == { <<Decl("x", "real", Fin(-2, 1), Fin(1, 1)), Decl("y", "real", Fin(-1, 1), Fin(3, 1)), Decl("z", "real", Fin(-4, 1), Fin(-3, 1))>>,
+           <<Decl("x", "real", Fin(-3, 1), Fin(0, 1)), Decl("y", "real", Fin(1, 1), Fin(2, 1)), Decl("z", "real", Fin(3, 1), Fin(4, 1))>>,
+           <<Decl("x", "int", Fin(-2, 1), Fin(2, 1)), Decl("y", "real", Fin(0, 1), Fin(4, 1)), Decl("z", "real", Fin(-4, 1), Fin(-2, 1))>> }
+Orders3 == {<<x, y, zz>>, <<x, zz, y>>, <<y, x, zz>>, <<y, zz, x>>, <<zz, x, y>>, <<zz, y, x>>}
+Ext3 == {N3(o, a[1], a[2], a[3]) : o \in {"min", "max"}, a \in Orders3}
+        \cup {N3(o, a[1], B("mul", Num(2, 1), a[2]), a[3]) : o \in {"min", "max"}, a \in Orders3}
+ConsI == {Con(t, c, k) : t \in Ext3, c \in Cmps, k \in {Num(1, 2), Num(2, 1), Num(-1, 1)}}
+         \cup {Con(B("mul", Num(-1, 1), t), c, Num(-1, 2)) : t \in Ext3, c \in {"le", "ge"}}
+         \cup {Con(B("add", t, x), c, Num(1, 1)) : t \in Ext3, c \in {"le", "ge"}}
+---------------------------------------------------------------------------
+Doms == CASE Family = "A" -> DomsA [] Family = "B" -> DomsB [] Family = "C" -> DomsC [] Family = "D" -> DomsD [] Family = "E" -> DomsE [] Family = "F" -> DomsF [] Family = "I" -> DomsI [] Family \in {"G", "H"} -> DomsG
+Cons == CASE Family = "A" -> ConsA [] Family = "B" -> ConsB [] Family = "C" -> ConsC [] Family = "D" -> ConsD [] Family = "E" -> ConsE [] Family = "F" -> ConsF [] Family = "I" -> ConsI [] Family \in {"G", "H"} -> ConsG
 Pre  == CASE Family = "C" -> BoundRowsC [] OTHER -> {<<>>}
 Objs == CASE Family = "D" -> {<<s, o>> : s \in {"min", "max"}, o \in ObjD}
           [] Family = "C" -> {<<"min", U("abs", x)>>, <<"max", N2("min", x, y)>>, <<"sat", Num(0, 1)>>}
